@@ -25,5 +25,5 @@ for c, v, o in r['verdicts']:
         key = ' '.join(v.split(' ')[2:])[:60]
         seen[key] += 1
         if seen[key] <= 1:
-            print(v[:300]); print('   ', c[:500]); print('   ', o[:700])
+            print(v[:300]); print('   ', c[:500]); print('   ', o[:int(os.environ.get('OBSLEN','700'))])
 print(seen.most_common(10))
